@@ -48,6 +48,9 @@ fn vs_case(rng: &mut Rng, w: &mut CaseWriter, cap: usize, len: usize) {
         let k = rng.weighted(&weights);
         kinds.insert(k);
         let count = s.len();
+        // a Rust panic of the implementation (an index past the slot array after a corrupted height, ...) is an
+        // observation that no specification output equals (`vpanicked`), and ends the history
+        let step = std::panic::catch_unwind(std::panic::AssertUnwindSafe(|| {
         match k {
             0 => {
                 let v = if rng.chance(1, 10) { Value::Nil } else { next += 1; Value::Integer(next) };
@@ -133,6 +136,14 @@ fn vs_case(rng: &mut Rng, w: &mut CaseWriter, cap: usize, len: usize) {
                     obs.push(format!("vtopo (Some {})", off));
                 }
             }
+        }
+        }));
+        if step.is_err() {
+            if ops.len() == obs.len() { ops.push("vlen".into()); }
+            obs.truncate(ops.len() - 1);
+            obs.push("vpanicked".into());
+            w.count("vs.impl_panic");
+            break;
         }
     }
     w.count(&format!("vs.cap={}", if cap <= 8 { cap.to_string() } else { "big".into() }));
